@@ -6,6 +6,7 @@ use crate::ast::{Ty, E};
 use crate::engine::Tier;
 use crate::gen::{self, Sink};
 use crate::gen2;
+use crate::gen3;
 use crate::sem::SemCase;
 
 pub enum CaseSpec {
@@ -56,6 +57,18 @@ pub fn ref_cases(tier: Tier) -> Vec<CaseSpec> {
     for c in gen2::f7() {
         v.push(CaseSpec::Full(Box::new(c)));
     }
+    for c in gen3::f2_flow(tier) {
+        v.push(CaseSpec::Full(Box::new(c)));
+    }
+    for c in gen3::f_w16k(tier) {
+        v.push(CaseSpec::Full(Box::new(c)));
+    }
+    for c in gen3::f2_fnflow(tier) {
+        v.push(CaseSpec::Full(Box::new(c)));
+    }
+    for c in gen3::f1_nest() {
+        v.push(CaseSpec::Full(Box::new(c)));
+    }
     for (c, _names, _mask) in gen2::f3(tier, false) {
         v.push(CaseSpec::Full(Box::new(c)));
     }
@@ -83,11 +96,26 @@ pub fn exec_cases(tier: Tier) -> Vec<CaseSpec> {
     for c in gen2::f9(tier) {
         v.push(CaseSpec::Full(Box::new(c)));
     }
+    for c in crate::props::c14::corpus_cases() {
+        v.push(CaseSpec::Full(Box::new(c)));
+    }
     push_f1(&mut v, tier, tier == Tier::Quick);
     for c in gen2::f2(tier) {
         v.push(CaseSpec::Full(Box::new(c)));
     }
     for c in gen2::f7() {
+        v.push(CaseSpec::Full(Box::new(c)));
+    }
+    for c in gen3::f2_flow(tier) {
+        v.push(CaseSpec::Full(Box::new(c)));
+    }
+    for c in gen3::f_w16k(tier) {
+        v.push(CaseSpec::Full(Box::new(c)));
+    }
+    for c in gen3::f2_fnflow(tier) {
+        v.push(CaseSpec::Full(Box::new(c)));
+    }
+    for c in gen3::f1_nest() {
         v.push(CaseSpec::Full(Box::new(c)));
     }
     for (c, _names, _mask) in gen2::f3(tier, false) {
